@@ -823,6 +823,9 @@ def selftest():
         raise RuntimeError("Gauss-Legendre reference broken")
 
 
+SANITIZE = True        # thorough tier: reduced pass against an ASan build of the extensions
+SANITIZE_SCALE = 0.03
+
 SUBCHECKS = [
     Subcheck("params", params_cases, check_params, classify_cosmo, quick=2000, thorough=80000),
     Subcheck("distances", distance_cases, check_distances, classify_dist, quick=2500, thorough=150000),
